@@ -503,4 +503,152 @@ theorem runRunes_text (s : PState) (hs : s.state = .ground) (he : s.exit = none)
   simp only [pstep] at hq
   simp [runRunes, hq]
 
+
+/-! ### Prints as clusters: one oracle cluster each, unless cut by a read boundary -/
+
+/-- Reader invariant w.r.t. the original list of reads. -/
+def InvRd (chunks0 : List (List Nat)) (rd : Rd) : Prop :=
+  rd.pos + (bytesOf rd).length = chunks0.flatten.length ∧ ∃ k, rd.chunks = chunks0.drop k
+
+theorem InvRd.cut {chunks0 : List (List Nat)} {rd : Rd} (h : InvRd chunks0 rd) (hb : rd.buf = []) :
+    IsCut chunks0 rd.pos := by
+  obtain ⟨h1, k, h2⟩ := h
+  refine ⟨k, ?_⟩
+  have hsplit : chunks0.flatten.length = (chunks0.take k).flatten.length + (chunks0.drop k).flatten.length := by
+    rw [← List.length_append, ← List.flatten_append, List.take_append_drop]
+  simp only [bytesOf, hb, h2, List.nil_append] at h1
+  omega
+
+/-- **Text as blocks.**  On a stream of bytes ≥ 0x20, whatever the reads and the oracle (no
+    hypothesis on it): the items are Prints then `EOF{}`; the Prints are consecutive blocks of the
+    units of the stream (first unit through `readRune`, the following ones through the look-ahead:
+    `render`); each block is one cluster of the oracle — or shorter, and then it ends exactly at a
+    read boundary. -/
+theorem runLoop_blocks (cl : Nat → Nat) (chunks0 : List (List Nat)) (fuel : Nat) (s : PState)
+    (hs : s.state = .ground) (he : s.exit = none) (rd : Rd) (htext : ∀ b ∈ bytesOf rd, 0x20 ≤ b)
+    (hinv : InvRd chunks0 rd) (hf : (bytesOf rd).length + 1 ≤ fuel) :
+    ∃ blocks : List (List U),
+      runLoop handTable cl fuel s rd = blocks.map (fun b => Item.print (render b)) ++ [.seq .eof] ∧
+      blocks.flatten = units (bytesOf rd) ∧ BlocksOk cl (IsCut chunks0) rd.pos blocks := by
+  induction fuel generalizing rd with
+  | zero => omega
+  | succ n ih =>
+    obtain ⟨hnil, hcons⟩ := readRune_spec rd
+    cases hbytes : bytesOf rd with
+    | nil =>
+      have h1 := hnil hbytes
+      simp only [runLoop]
+      generalize hr : readRune rd = rr at h1
+      obtain ⟨ro, rd1⟩ := rr
+      simp only at h1
+      subst h1
+      have hq := pstep_eof_quiet s he
+      simp only [pstep] at hq
+      exact ⟨[], by simp [hq], by simp, trivial⟩
+    | cons b t =>
+      obtain ⟨h1, h2, h3, ⟨k1, h4⟩⟩ := hcons b t hbytes
+      have hus := unit1_sz b t
+      have hb20 := htext b (by rw [hbytes]; simp)
+      have hr20 := unit1_raw_ge b t hb20
+      simp only [runLoop]
+      generalize hr : readRune rd = rr at h1 h2 h3 h4
+      obtain ⟨ro, rd1⟩ := rr
+      simp only at h1 h2 h3 h4
+      subst h1
+      have hp := ground_print s hs _ hr20
+      simp only [pstep] at hp
+      simp only [hp, deliver, Bool.false_eq_true, if_false]
+      obtain ⟨us, g1, g2, g3, g4, g5, g6, g7, g8, ⟨k2, g9⟩⟩ :=
+        printLoop_spec (max 1 (cl rd.pos)) (rd1.remaining + 1) rd1 [(unit1 (b :: t)).raw]
+      generalize hpl : printLoop (max 1 (cl rd.pos)) (rd1.remaining + 1) rd1 [(unit1 (b :: t)).raw] = pl
+        at g1 g2 g3 g4 g6 g7 g8 g9
+      obtain ⟨g, rd2⟩ := pl
+      simp only at g1 g2 g3 g4 g6 g7 g8 g9
+      rw [h2] at g2 g3 g4
+      obtain ⟨i1, k0, i2⟩ := hinv
+      rw [hbytes] at i1 hf
+      simp only [List.length_cons] at i1 hf
+      simp only [List.length_drop, List.length_cons] at g4
+      have hinv2 : InvRd chunks0 rd2 := by
+        refine ⟨?_, ⟨k0 + k1 + k2, ?_⟩⟩
+        · rw [g6, h3, g3]
+          simp only [List.length_drop, List.length_cons]
+          omega
+        · rw [g9, h4, i2, List.drop_drop, List.drop_drop, Nat.add_assoc]
+      have htext2 : ∀ x ∈ bytesOf rd2, 0x20 ≤ x := by
+        intro x hx
+        rw [g3] at hx
+        exact htext x (by rw [hbytes]; exact List.mem_of_mem_drop (List.mem_of_mem_drop hx))
+      have hlen : (bytesOf rd2).length + 1 ≤ n := by
+        rw [g3]
+        simp only [List.length_drop, List.length_cons]
+        omega
+      obtain ⟨blocks, j1, j2, j3⟩ := ih rd2 htext2 hinv2 hlen
+      refine ⟨(unit1 (b :: t) :: us) :: blocks, ?_, ?_, ?_⟩
+      · simp [j1, g1, render]
+      · rw [List.flatten_cons, j2, units_cons, g2]; rfl
+      · have hpos : rd2.pos = rd.pos + ulen (unit1 (b :: t) :: us) := by
+          rw [g6, h3]; simp only [ulen, List.map_cons, List.sum_cons]; omega
+        refine ⟨by simp, ?_, ?_, by rw [← hpos]; exact j3⟩
+        · by_cases hne : us = []
+          · subst hne; simp only [List.length_cons, List.length_nil]; omega
+          · have := g7 hne
+            simp only [List.length_cons, List.length_nil] at this ⊢
+            omega
+        · have hrem : rd1.remaining = (t.length + 1) - (unit1 (b :: t)).sz := by
+            rw [remaining_eq, h2]; simp
+          simp only [List.length_cons, List.length_nil] at g8 ⊢
+          rcases g8 with h | h | h
+          · left
+            by_cases hne : us = []
+            · subst hne; simp only [List.length_nil] at h ⊢; omega
+            · have := g7 hne
+              simp only [List.length_cons, List.length_nil] at this
+              omega
+          · right; rw [← hpos]; exact hinv2.cut h
+          · exfalso; omega
+
+
+theorem take_filter_nonempty (cs : List (List Nat)) (k : Nat) :
+    ∃ k', ((cs.filter (!·.isEmpty)).take k).flatten = (cs.take k').flatten := by
+  induction cs generalizing k with
+  | nil => exact ⟨0, by simp⟩
+  | cons c rest ih =>
+    cases c with
+    | nil =>
+      obtain ⟨k', hk⟩ := ih k
+      exact ⟨k' + 1, by simpa [List.filter] using hk⟩
+    | cons b r =>
+      cases k with
+      | zero => exact ⟨0, by simp⟩
+      | succ j =>
+        obtain ⟨k', hk⟩ := ih j
+        exact ⟨k' + 1, by simp [List.filter, hk]⟩
+
+theorem IsCut_of_filter (cs : List (List Nat)) (n : Nat) (h : IsCut (cs.filter (!·.isEmpty)) n) : IsCut cs n := by
+  obtain ⟨k, hk⟩ := h
+  obtain ⟨k', hk'⟩ := take_filter_nonempty cs k
+  exact ⟨k', by rw [hk, hk']⟩
+
+theorem BlocksOk_mono (cl : Nat → Nat) (P Q : Nat → Prop) (hPQ : ∀ n, P n → Q n) (pos : Nat) (bl : List (List U))
+    (h : BlocksOk cl P pos bl) : BlocksOk cl Q pos bl := by
+  induction bl generalizing pos with
+  | nil => trivial
+  | cons b rest ih =>
+    obtain ⟨h1, h2, h3, h4⟩ := h
+    exact ⟨h1, h2, h3.imp id (hPQ _), ih _ h4⟩
+
+theorem runChunks_blocks (cl : Nat → Nat) (chunks : List (List Nat)) (htext : ∀ b ∈ chunks.flatten, 0x20 ≤ b) :
+    ∃ blocks : List (List U),
+      runChunks handTable cl chunks = blocks.map (fun b => Item.print (render b)) ++ [.seq .eof] ∧
+      blocks.flatten = units chunks.flatten ∧ BlocksOk cl (IsCut chunks) 0 blocks := by
+  unfold runChunks
+  have hb : bytesOf { buf := [], chunks := chunks.filter (!·.isEmpty) } = chunks.flatten := by
+    simp [bytesOf, flatten_filter_nonempty]
+  obtain ⟨blocks, h1, h2, h3⟩ := runLoop_blocks cl (chunks.filter (!·.isEmpty))
+    (({ buf := [], chunks := chunks.filter (!·.isEmpty) } : Rd).remaining + 2) PState.init rfl rfl
+    { buf := [], chunks := chunks.filter (!·.isEmpty) } (by rw [hb]; exact htext)
+    ⟨by rw [hb]; simp [flatten_filter_nonempty], ⟨0, by simp⟩⟩ (by rw [remaining_eq]; omega)
+  exact ⟨blocks, h1, by rw [h2, hb], BlocksOk_mono cl _ _ (IsCut_of_filter chunks) _ _ h3⟩
+
 end VaxisModel.Lemmas.ParserRead
